@@ -47,8 +47,19 @@ class Walker:
         self.npaths = 0
 
     # ------------------------------------------------------------------ hooks (override)
+    inline_helpers = False  # opt-in: inline non-virtual member functions of the same class (extracted helpers)
+    no_inline = ()  # names the rule treats as events of their own
+
     def inline(self, fn, node, st):
         """return the callee Function to inline at this call node, or None"""
+        if not self.inline_helpers:
+            return None
+        g = self.fb.fn.get(node.get('ck'))
+        if g is None or g.cfg is None or st.depth >= 3 or g.n in self.no_inline:
+            return None
+        if g.cls and g.cls == fn.cls and 'virtual' not in g.flags and 'ctor' not in g.flags and \
+                'dtor' not in g.flags:
+            return g
         return None
 
     def on_node(self, fn, node, st):
@@ -128,16 +139,102 @@ class Walker:
         if k == 'DeclStmt':
             for v in n['vars']:
                 if 'init' in v and v['id'] >= 0:
-                    st.locals[(st.depth, v['id'])] = self.ev(fn, v['init'], st)
+                    val = self.ev(fn, v['init'], st)
+                    st.locals[(st.depth, v['id'])] = val
+                    if val[0] != 'c':
+                        self._note_cond_def(fn, v['id'], v['init'], st)
         elif k in ('BinaryOperator', 'CompoundAssignOperator') and n['op'].endswith('=') and \
                 n['op'] not in ('==', '!=', '<=', '>='):
             lhs = fn.sn(n['ch'][0])
             if lhs is not None and lhs['k'] == 'DeclRefExpr' and 'id' in lhs:
                 st.locals[(st.depth, lhs['id'])] = self.ev(fn, n['ch'][1], st) if n['op'] == '=' else UNKNOWN
+                st.data.pop(('cond', st.depth, lhs['id']), None)
+                if n['op'] == '=' and st.locals[(st.depth, lhs['id'])][0] != 'c':
+                    self._note_cond_def(fn, lhs['id'], n['ch'][1], st)
         elif k == 'UnaryOperator' and n['op'] in ('++', '--'):
             lhs = fn.sn(n['ch'][0])
             if lhs is not None and lhs['k'] == 'DeclRefExpr' and 'id' in lhs:
                 st.locals[(st.depth, lhs['id'])] = UNKNOWN
+
+    def _note_cond_def(self, fn, vid, init, st):
+        """a local that holds the (unknown) value of a condition: a later branch on the local is a branch on the
+        condition (`const bool last = x.SubEqual(1); if (last)`, `auto old = w.exchange(1); if (old != 0)` is
+        handled by the rules through the value; here: booleans and anything whose defining expression is a
+        comparison, a logical operator, a negation or a call returning bool)"""
+        j = fn.strip(init)
+        if j is None or j < 0:
+            return
+        n = fn.nodes[j]
+        try:
+            t = fn.locals[vid].get('t', '')
+        except (IndexError, KeyError, TypeError, AttributeError):
+            t = ''
+        isbool = n.get('t') == 'bool' or t.replace('const ', '') == 'bool'
+        if not isbool:
+            return
+        st.data = copy.copy(st.data)
+        # a bool initialised from an inlined helper whose return value was a condition: keep that link
+        rc = st.data.get(('retcond', st.depth, j))
+        st.data[('cond', st.depth, vid)] = rc if rc is not None else (fn, j, st.depth)
+
+    def _resolve_cond(self, fn, ci, st):
+        """follow a branch condition through named bool locals and inlined helper results to the expression that
+        was really tested: returns (fn, node, depth, negated) or None"""
+        neg = False
+        depth = st.depth
+        for _ in range(8):
+            j = fn.strip(ci)
+            if j is None or j < 0:
+                return None
+            n = fn.nodes[j]
+            if n['k'] == 'UnaryOperator' and n.get('op') == '!':
+                neg = not neg
+                ci = n['ch'][0]
+                continue
+            if n['k'] in ('ImplicitCastExpr', 'CXXStaticCastExpr', 'CXXFunctionalCastExpr') and n.get('ch'):
+                ci = n['ch'][0]
+                continue
+            link = None
+            if n['k'] == 'DeclRefExpr' and 'id' in n:
+                link = st.data.get(('cond', depth, n['id']))
+            elif n['k'] in ('CallExpr', 'CXXMemberCallExpr', 'CXXOperatorCallExpr'):
+                link = st.data.get(('retcond', depth, j))
+            if link is None:
+                return None
+            fn, ci, depth = link
+            # the link target may itself be negated / another local: keep resolving, then report the final target
+            k = fn.strip(ci)
+            m = fn.nodes[k]
+            more = (m['k'] == 'UnaryOperator' and m.get('op') == '!') or \
+                (m['k'] == 'DeclRefExpr' and 'id' in m and st.data.get(('cond', depth, m['id'])) is not None) or \
+                (m['k'] in ('CallExpr', 'CXXMemberCallExpr', 'CXXOperatorCallExpr') and
+                 st.data.get(('retcond', depth, k)) is not None)
+            if not more:
+                return fn, k, depth, neg
+            # continue resolving inside the target function/depth
+            sub = self._resolve_cond_at(fn, ci, depth, st)
+            if sub is None:
+                return fn, k, depth, neg
+            f2, k2, d2, n2 = sub
+            return f2, k2, d2, neg != n2
+        return None
+
+    def _resolve_cond_at(self, fn, ci, depth, st):
+        old = st.depth
+        st.depth = depth
+        try:
+            r = self._resolve_cond(fn, ci, st)
+        finally:
+            st.depth = old
+        if r is not None:
+            return r
+        # plain negations only
+        neg = False
+        j = fn.strip(ci)
+        while j is not None and j >= 0 and fn.nodes[j]['k'] == 'UnaryOperator' and fn.nodes[j].get('op') == '!':
+            neg = not neg
+            j = fn.strip(fn.nodes[j]['ch'][0])
+        return (fn, j, depth, neg) if neg else None
 
     # ------------------------------------------------------------------ the walk
     def run(self, fn, st=None, args=None):
@@ -181,6 +278,14 @@ class Walker:
                     if n['k'] == 'ReturnStmt':
                         ch = n.get('ch', [])
                         rv = self.ev(fn, ch[0], st) if ch and ch[0] >= 0 else None
+                        if rv is not None and rv[0] != 'c' and st.depth > 0:
+                            # remember which condition the (unknown) boolean return value stands for
+                            eff = self.effective(fn, ch[0], st)
+                            if eff is not None and fn.nodes[eff].get('t') == 'bool':
+                                st.data = copy.copy(st.data)
+                                sub = self._resolve_cond_at(fn, eff, st.depth, st)
+                                st.data['retcond-pending'] = (sub[0], sub[1], sub[2]) if sub is not None and \
+                                    not sub[3] else (fn, eff, st.depth)
                         self.on_node(fn, n, st)
                         # run the destructors that follow the return in this block
                         for e2 in el[i:]:
@@ -209,10 +314,17 @@ class Walker:
                             rs2.depth = st.depth
                             rs2.data = copy.copy(rs2.data)
                             rs2.data[('ret', st.depth, e)] = rv if rv is not None else UNKNOWN
+                            pend = rs2.data.pop('retcond-pending', None)
+                            if pend is not None:
+                                rs2.data[('retcond', st.depth, e)] = pend
                             self._walk(fn, cfg, b, i, rs2, visits, out)
                         rs, rv = res[0]
                         rs.depth = st.depth
+                        rs.data = copy.copy(rs.data)
                         rs.data[('ret', st.depth, e)] = rv if rv is not None else UNKNOWN
+                        pend = rs.data.pop('retcond-pending', None)
+                        if pend is not None:
+                            rs.data[('retcond', st.depth, e)] = pend
                         st = rs
                         continue
                     if 'ck' in n or n['k'] in ('CallExpr', 'CXXMemberCallExpr', 'CXXOperatorCallExpr'):
@@ -285,6 +397,34 @@ class Walker:
         if ci is not None:
             self._edge_fact(fn, ci, truth, st)
             self.on_edge(fn, ci, truth, st)
+            r = self._resolve_cond(fn, ci, st)
+            if r is not None:
+                # the branch tests a named bool / the result of an inlined helper: the rule also sees the
+                # condition that was really evaluated
+                self._dispatch_edge(r[0], r[1], r[2], truth != r[3], st)
+
+    def _dispatch_edge(self, fn, node, depth, truth, st):
+        """on_edge for a condition that was evaluated earlier (in a named local / in an inlined helper); && and ||
+        are decomposed when their outcome determines the operands"""
+        n = fn.nodes[node]
+        if n['k'] == 'BinaryOperator' and n.get('op') in ('&&', '||'):
+            if (n['op'] == '&&') == truth:  # a && b true: both true;  a || b false: both false
+                for c in n['ch']:
+                    sub = self._resolve_cond_at(fn, c, depth, st)
+                    if sub is not None:
+                        self._dispatch_edge(sub[0], sub[1], sub[2], truth != sub[3], st)
+                    else:
+                        self._dispatch_edge(fn, fn.strip(c), depth, truth, st)
+            return
+        if n['k'] == 'UnaryOperator' and n.get('op') == '!':
+            self._dispatch_edge(fn, fn.strip(n['ch'][0]), depth, not truth, st)
+            return
+        old = st.depth
+        st.depth = depth
+        try:
+            self.on_edge(fn, node, truth, st)
+        finally:
+            st.depth = old
 
     def _edge_fact(self, fn, ci, truth, st):
         """record what a taken edge tells about a boolean local"""
